@@ -59,16 +59,51 @@ def prepare_contracts():
         pg.write_text("")
 
 
+def module_feature(harness):
+    """the cargo feature (m_<module>) of the harness crate that compiles `harness`"""
+    seg = harness.split("::")
+    mod = seg[0]
+    if mod == "obl_codes" and len(seg) > 1 and seg[1].startswith("golomb"):
+        return "m_golomb"
+    return "m_" + mod[len("obl_"):]
+
+
+# BUILD_KEY names the target directory of the current invocation (one per property, so
+# that each check keeps its own incremental build of exactly the modules it needs)
+BUILD_KEY = "dev"
+MODULE_FEATURES = []
+
+
+def set_build(key, harnesses):
+    global BUILD_KEY, MODULE_FEATURES
+    BUILD_KEY = key
+    MODULE_FEATURES = sorted({module_feature(h) for h in harnesses if h})
+
+
+def all_features(features):
+    return ",".join(MODULE_FEATURES + ([features] if features else []))
+
+
 def target_dir(features):
-    return CACHE / ("kani" + ("-" + features.replace(",", "-") if features else ""))
+    return CACHE / ("kani-" + BUILD_KEY + ("-" + features.replace(",", "-") if features else ""))
 
 
 def kani_base(features):
     cmd = ["cargo", "kani", "--target-dir", str(target_dir(features)),
            "-Z", "stubbing", "-Z", "unstable-options"]
-    if features:
-        cmd += ["--features", features]
+    f = all_features(features)
+    if f:
+        cmd += ["--features", f]
     return cmd
+
+
+def prune_build(features):
+    """remove stale per-fingerprint output directories of the harness crate (they hold one goto file per harness)"""
+    base = target_dir(features) / "kani" / "x86_64-unknown-linux-gnu" / "debug" / "build" / "dsi-contracts"
+    if base.exists():
+        ds = sorted([d for d in base.iterdir() if d.is_dir()], key=lambda d: d.stat().st_mtime)
+        for d in ds[:-1]:
+            shutil.rmtree(d, ignore_errors=True)
 
 
 RE_CHECKING = re.compile(r"^(?:Thread (\d+): )?Checking harness (\S+?)\.\.\.\s*$")
@@ -179,7 +214,7 @@ def parse_regular(out):
         elif st in ("UNDETERMINED", "UNSUPPORTED"):
             undetermined.append(d)
     tests = []
-    for m in re.finditer(r"```\n(/// Test generated for harness `(?P<h>[^`]+)`.*?\n///\n/// Check for `(?P<kind>\w+)`: \"(?P<desc>.*?)\"\n\s*(?P<body>#\[test\].*?))```", out, re.S):
+    for m in re.finditer(r"```\n(/// Test generated for harness `(?P<h>[^`]+)`.*?\n///\n/// Check for `(?P<kind>\w+)`: \"(?P<desc>.*?)\"\n(?:///[^\n]*\n|[ \t]*\n)*(?P<body>#\[test\].*?))```", out, re.S):
         tests.append(dict(harness=m.group("h"), kind=m.group("kind"), desc=m.group("desc"), text=m.group(1)))
     status = "ok" if "VERIFICATION:- SUCCESSFUL" in out else ("failed" if "VERIFICATION:- FAILED" in out else "unknown")
     return dict(status=status, fails=fails, unsat_covers=unsat_covers, undetermined=undetermined, tests=tests)
@@ -211,6 +246,40 @@ def decode_vals(test_text):
     return vals
 
 
+def native_playback_batch(items, feats=""):
+    """items: list of (harness, test_text). One native build, all tests. Returns {test fn name: (reproduced, output tail)}."""
+    bodies, names = [], []
+    for harness, test_text in items:
+        m = re.search(r"fn (kani_concrete_playback_\w+)\(\)", test_text)
+        name = m.group(1)
+        short = harness.split("::")[-1]
+        body = re.sub(r"kani::concrete_playback_run\(concrete_vals, %s\)" % re.escape(short),
+                      "kani::concrete_playback_run(concrete_vals, crate::%s)" % harness, test_text)
+        uniq = name + "_" + hashlib.sha256(harness.encode()).hexdigest()[:8]
+        body = body.replace("fn " + name + "()", "fn " + uniq + "()")
+        bodies.append(body)
+        names.append(uniq)
+    pg = CONTRACTS / "src" / "playback_gen.rs"
+    pg.write_text("\n".join(bodies))
+    env = dict(KANI_ENV, CARGO_TARGET_DIR=str(CACHE / "kani-playback"), RUST_BACKTRACE="0")
+    try:
+        p = subprocess.run(["cargo", "kani", "playback", "-Z", "concrete-playback"] + (["--features", all_features(feats)] if all_features(feats) else [])
+                           + ["--", "kani_concrete_playback", "--nocapture", "--test-threads", "1"],
+                           cwd=CONTRACTS, env=env, stdout=subprocess.PIPE, stderr=subprocess.STDOUT, text=True, timeout=1800)
+        out = p.stdout
+    except subprocess.TimeoutExpired:
+        out = "playback timed out"
+    finally:
+        pg.write_text("")
+    res = {}
+    for uniq in names:
+        m = re.search(r"^test playback_gen::%s \.\.\. (\w+)" % re.escape(uniq), out, re.M)
+        failed = bool(m and m.group(1) == "FAILED")
+        mm = re.search(r"thread 'playback_gen::%s'[^\n]*panicked at [^\n]*\n([^\n]*)" % re.escape(uniq), out)
+        res[uniq] = (failed, (mm.group(0) if mm else ("test did not panic" if m else out[-600:])))
+    return dict(zip([i[0] + "|" + str(k) for k, i in enumerate(items)], [res[u] for u in names]))
+
+
 def native_playback(harness, test_text):
     """Compile the harness natively with Kani's concrete values and run it on the real code."""
     m = re.search(r"fn (kani_concrete_playback_\w+)\(\)", test_text)
@@ -222,7 +291,8 @@ def native_playback(harness, test_text):
     pg.write_text(body)
     env = dict(KANI_ENV, CARGO_TARGET_DIR=str(CACHE / "kani-playback"), RUST_BACKTRACE="0")
     try:
-        p = subprocess.run(["cargo", "kani", "playback", "-Z", "concrete-playback", "--", name, "--nocapture"],
+        p = subprocess.run(["cargo", "kani", "playback", "-Z", "concrete-playback"] + (["--features", all_features("")] if all_features("") else [])
+                           + ["--", name, "--nocapture"],
                            cwd=CONTRACTS, env=env, stdout=subprocess.PIPE, stderr=subprocess.STDOUT, text=True, timeout=900)
         out = p.stdout
     except subprocess.TimeoutExpired:
@@ -281,6 +351,7 @@ def do_replay(path):
         print(f"replay file has no concrete input (obligation {r['obligation']}): {r.get('verifier_output', '')[:400]}")
         return 2
     prepare_contracts()
+    set_build(prop, [r["harness"]])
     ok, tail = native_playback(r["harness"], r["playback_test"])
     print(tail)
     if ok:
@@ -314,6 +385,7 @@ def main():
     known = load_known()
     timeout_s = 900 if tier == "quick" else 3600
 
+    pending_playback = []
     results = {}      # obl id -> dict
     undecided = []    # (obl id, reason)
     violations = []   # dicts
@@ -323,9 +395,11 @@ def main():
 
     # ---- Kani groups --------------------------------------------------------
     kobls = [o for o in obls if o.engine == "kani"]
+    set_build(prop, [o.target for o in kobls] + [o.confirm for o in kobls])
     for features in sorted({o.features for o in kobls}):
         group = [o for o in kobls if o.features == features]
         res, build_err, wall = run_kani_group(features, group, timeout_s)
+        prune_build(features)
         cmds.append("RUSTFLAGS='--cfg dsi_bitstream_verif' cargo kani -Z stubbing --exact --harness <each>"
                     + (f" --features {features}" if features else ""))
         if build_err is not None:
@@ -333,6 +407,15 @@ def main():
             for o in group:
                 undecided.append((o.id, "harness crate does not build against the current tree"))
             continue
+        # individual re-runs (with concrete playback) of everything that did not pass, in parallel
+        need = sorted({o.target for o in group if res.get(o.target) is not None and not (
+            res[o.target]["status"] == "ok" and res[o.target]["covers_sat"] == res[o.target]["covers"] and res[o.target]["checks"] > 0)})
+        single_out = {}
+        if need:
+            from concurrent.futures import ThreadPoolExecutor
+            with ThreadPoolExecutor(max_workers=min(8, max(1, JOBS // 2))) as ex:
+                for h, out_ in zip(need, ex.map(lambda h: run_kani_single(features, h, timeout_s), need)):
+                    single_out[h] = out_
         for o in group:
             r = res.get(o.target)
             if r is None:
@@ -344,7 +427,7 @@ def main():
                                      covers=r["covers"])
                 continue
             # triage individually
-            out = run_kani_single(o.features, o.target, timeout_s)
+            out = single_out[o.target]
             pr = parse_regular(out)
             (CACHE / f"fail_{o.id.replace('/', '_')}.log").write_text(out)
             if pr["status"] == "ok" and not pr["unsat_covers"]:
@@ -414,19 +497,30 @@ def main():
                        failed_checks=obs, functions=o.fns)
             suffix = ""
             if test is not None:
-                ok, tail = native_playback(o.target, test["text"])
-                rep.update(playback_test=test["text"], inputs=decode_vals(test["text"]), native_output=tail,
-                           reproduced_natively=ok,
+                rep.update(playback_test=test["text"], inputs=decode_vals(test["text"]),
                            replay_cmd=f"/verif/bin/check {prop} --replay {rpath}")
-                if not ok:
-                    suffix = " no-failing-input-found"
-                    rep["note"] = "Kani produced a counterexample but the native playback did not panic"
+                pending_playback.append((o.target, test["text"], rep, rpath, len(violations)))
             else:
                 suffix = " no-failing-input-found"
                 rep["verifier_output"] = out[-4000:]
-            rpath.write_text(json.dumps(rep, indent=1))
+                rpath.write_text(json.dumps(rep, indent=1))
             violations.append(dict(obl=o.id, replay=str(rpath), suffix=suffix, descs=descs))
             results[o.id] = dict(status="violated", failed=descs, replay=str(rpath))
+
+    # ---- replay all Kani counterexamples natively on the real code (one build) ----
+    if pending_playback:
+        by_feat = {}
+        for item in pending_playback:
+            by_feat.setdefault(item[2]["features"], []).append(item)
+        for feats, items in by_feat.items():
+            pb = native_playback_batch([(h, t) for h, t, _, _, _ in items], feats)
+            for k, (h, t, rep, rpath, vi) in enumerate(items):
+                ok, tail = pb.get(h + "|" + str(k), (False, "native playback produced no result"))
+                rep.update(native_output=tail, reproduced_natively=ok)
+                if not ok:
+                    violations[vi]["suffix"] = " no-failing-input-found"
+                    rep["note"] = "Kani produced a counterexample (inputs above) but the native playback did not panic"
+                rpath.write_text(json.dumps(rep, indent=1))
 
     # ---- Verus units --------------------------------------------------------
     vobls = [o for o in obls if o.engine == "verus"]
